@@ -36,6 +36,7 @@ LOOPT = [("int", "0.5"), ("int", '"a"'), ("str", "1"), ("float", '"a"'), ("bool"
          ("str", '"a", 2.5'), ("str", '"x", True'), ("str", '1, "b"'), ("int", '1, "2"'), ("float", '0.5, "1.5"'), ("bool", 'True, 2')]
 
 
+@common.guarded("C11")
 def judge(src, expect):
     """expect: None (any exception), or (ident, line, col0)"""
     st, p = common.loads(src)
